@@ -28,6 +28,7 @@ import EG.Lemmas.ThickGeoMetric
 import EG.Lemmas.ThickGeoHole
 import EG.Lemmas.ThickGeoBandMetric
 import EG.Lemmas.ThickGeoMid
+import EG.Lemmas.ThickGeoDiscountMetric
 import EG.Lemmas.ThickTotal
 namespace EG.C17.Stroke
 open EG
@@ -244,6 +245,83 @@ theorem thick_band_axis_parallel_or_diagonal (l : Line) (w : Nat) (hw2 : w ≤ 2
 
 example : (strokeDir ⟨⟨3, -2⟩, ⟨-4, 5⟩⟩).x.natAbs = (strokeDir ⟨⟨3, -2⟩, ⟨-4, 5⟩⟩).y.natAbs ∧
     (strokeDir ⟨⟨3, -2⟩, ⟨3, 9⟩⟩).x = 0 := by decide
+
+
+/-! ### The band claim with the skipped `Extra` steps discounted: true for every line and width
+
+`SkippedSteps l w skL skR` (EG/Lemmas/ThickGeoDiscountMetric.lean): `skL` / `skR` are the total numbers
+of `Extra` perpendicular steps the `ParallelsIterator` of the stroke takes on its left / right side
+WITHOUT returning a parallel (`Thick.skipsFuel` counts the tail calls of the `next_parallel` loop,
+`Thick.skipTotals` sums them over the run) - the two counters of the harness port
+`joins_port::skipped_extras`. `discountedReach l skL skR p` is the oracle's
+`t = 2 |cross(p)| - 2 min(|dx|,|dy|) sk(side(p))`, left side = `cross < 0`. -/
+
+/-- The band claim of the property text after the oracle's discount (class
+`C17:thick-band:wide-stroke-overcount`), for one stroke: every pixel is within `w/2 + 2.5` pixels of
+the ideal line once the uncounted displacement `min(|dx|,|dy|)/L` per skipped `Extra` step of its
+side is subtracted. -/
+def ThickBandDiscounted (l : Line) (w : Nat) : Prop :=
+  ∃ skL skR, SkippedSteps l w skL skR ∧ ∀ ps, Thick.thickPoints l w = some ps → ∀ p ∈ ps,
+    discountedReach l skL skR p ≤ 0 ∨
+    discountedReach l skL skR p ^ 2 ≤ ((w : Int) + 5) ^ 2 * L2 l
+
+/-- **With the skipped `Extra` steps of its side discounted, every pixel of every stroked line is
+within `w/2 + 1.75` (hence `w/2 + 2.5`) pixels of the ideal line** - every line (zero length
+included), every width `<= i32::MAX`: `t <= 0`, or `(2 t)^2 <= (2 w + 7)^2 L2` and `t^2 <= (w + 5)^2 L2`
+for `t = 2 |cross(p)| - 2 min(|dx|,|dy|) sk(side(p))`. This is the exact account of the known finding:
+the only way a stroke leaves the band of the text is by `min(|dx|,|dy|)/L` pixels per skipped step
+(`skipped_step_not_counted`, `next_adds_one_step` in EG/Props/C17.lean).
+(Mechanism of the proof, EG/Lemmas/ThickGeoDiscount.lean: per side, with `N` / `E` returned `Normal` /
+`Extra` parallels and `S` skipped steps, the side's parallel error is `+-(2 d (E + S) - 2 D E)` and its
+walker error `+-(2 d N - 2 D (E + S))`, both bounded by about `D`; so a pixel of the side's `n`-th
+band, `|2 cross| <= 2 D n + D`, has `|2 cross| - 2 d S <= 2 D N + 2 d E + 2 D` = the side's share of the
+accumulator `+ 2 D`; the two shares differ by at most `2 (D - d)`, and the accumulator is at most
+`2 w L` when the parallel is fetched: `2 t <= 2 w L + 7 D - 3 d`.) -/
+theorem thick_band_with_skipped_discount (l : Line) (w : Nat) (hw2 : w ≤ 2147483647) :
+    ∃ skL skR, SkippedSteps l w skL skR ∧ ∀ ps, Thick.thickPoints l w = some ps → ∀ p ∈ ps,
+      discountedReach l skL skR p ≤ 0 ∨
+      (4 * discountedReach l skL skR p ^ 2 ≤ (2 * (w : Int) + 7) ^ 2 * L2 l ∧
+       discountedReach l skL skR p ^ 2 ≤ ((w : Int) + 5) ^ 2 * L2 l) := by
+  obtain ⟨ps0, h0⟩ := Thick.thickPoints_total l w
+  obtain ⟨skL, skR, hsk, hall⟩ := discount_cross l w hw2 ps0 h0
+  refine ⟨skL, skR, hsk, ?_⟩
+  intro ps h p hp
+  rw [h0] at h
+  simp only [Option.some.injEq] at h
+  subst h
+  obtain ⟨A, hA0, hA, ht⟩ := hall p hp
+  have hD := (Thick.ctxOf_valid l).hD
+  have hd0 := (Thick.ctxOf_valid l).hd0
+  have hS : majorLen l * majorLen l ≤ L2 l := by
+    rw [L2_eq, majorLen_eq]
+    have := Int.mul_nonneg hd0 hd0
+    omega
+  exact disc_band _ A (majorLen l) (L2 l) w (by rw [majorLen_eq]; omega) hS (by omega) hA0 hA
+    (by rw [minorLen_eq] at ht; omega)
+
+/-- The discounted band claim holds for every stroke. -/
+theorem thick_band_discounted_all (l : Line) (w : Nat) (hw2 : w ≤ 2147483647) :
+    ThickBandDiscounted l w := by
+  obtain ⟨skL, skR, hsk, hall⟩ := thick_band_with_skipped_discount l w hw2
+  refine ⟨skL, skR, hsk, fun ps h p hp => ?_⟩
+  rcases hall ps h p hp with ht | ⟨_, ht⟩
+  · exact Or.inl ht
+  · exact Or.inr ht
+
+/-- The witness of `thick_band_false`, line (0,0)-(2,1) width 37: 5 / 4 `Extra` steps are skipped on
+the left / right side (the harness port reports the same counts for the real code), the pixel (9,-19)
+at `cross = -47` (21.02 px, outside the text's 21) has `t = 2 * 47 - 2 * 1 * 5 = 84`, and
+`84^2 = 7056 <= (37 + 5)^2 * 5 = 8820` (18.78 px after the discount). -/
+example : (37 : Nat) ≤ 2147483647 ∧
+    ((Thick.ParallelsIterator.new ⟨⟨0, 0⟩, ⟨2, 1⟩⟩ 37 .none).bind (Thick.skipTotals 100)) = some (5, 4) ∧
+    discountedReach ⟨⟨0, 0⟩, ⟨2, 1⟩⟩ 5 4 ⟨9, -19⟩ = 84 := by decide
+
+/-- The skipped-step counts of a stroke are unique. -/
+theorem skipped_steps_unique (l : Line) (w : Nat) (a b a' b' : Nat) (h : SkippedSteps l w a b)
+    (h' : SkippedSteps l w a' b') : a = a' ∧ b = b' := skippedSteps_unique l w a b a' b' h h'
+
+example : SkippedSteps ⟨⟨0, 0⟩, ⟨2, 1⟩⟩ 37 5 4 :=
+  ⟨_, 100, rfl, by decide⟩
 
 
 /-! ### "At least w - 1 pixels wide at its middle" as the extent of the middle slab -/
